@@ -189,7 +189,15 @@ namespace foonathan
                         // reserve more then the default capacity if that didn't work either
                         detail::check_allocation_size<bad_array_size>(
                             count * node_size,
-                            [&] { return next_capacity() - pool.alignment() + 1; }, info());
+                            [&]
+                            {
+                                // the fresh block must also hold the fences, the alignment
+                                // padding and the rounding to whole pool nodes
+                                auto overhead = 2 * detail::debug_fence_size + detail::max_alignment
+                                                + pool.node_size();
+                                return next_capacity() > overhead ? next_capacity() - overhead : 0u;
+                            },
+                            info());
 
                         // the pool takes whole nodes of its own size, which may exceed node_size
                         block = reserve_memory(pool, (count * node_size + pool.node_size() - 1)
